@@ -22,10 +22,14 @@ Recorded ==
     ELSE viol
 NamesNow == IF Keep THEN vnames \cup FreshV ELSE vnames
 
+\* ids of the nil funcs among the jobs of a new / call enq event (traces recorded before nil jobs
+\* were part of the input space have no such field: no nil jobs)
+NilsOf(e) == IF "nils" \in DOMAIN e THEN SeqToSet(e.nils) ELSE {}
+
 Apply(e) ==
     CASE e.ev = "reset"   -> PReset
-      [] e.ev = "new"     -> PNew(e.limit, e.jobs)
-      [] e.ev = "call" /\ e.op = "enq"      -> PCallEnq(e.c, e.jobs)
+      [] e.ev = "new"     -> PNew(e.limit, e.jobs, NilsOf(e))
+      [] e.ev = "call" /\ e.op = "enq"      -> PCallEnq(e.c, e.jobs, NilsOf(e))
       [] e.ev = "ret"  /\ e.op = "enq"      -> PRetEnq(e.c, e.q, e.r)
       [] e.ev = "call" /\ e.op = "waitidle" -> PCallWI
       [] e.ev = "ret"  /\ e.op = "waitidle" -> PRetWI(e.res)
@@ -39,7 +43,7 @@ Apply(e) ==
       \* controller-level events of traces recorded with -logsteps (judged by ConcQueueXTrace.tla only)
       [] e.ev \in {"step", "scen", "teardown"} -> UNCHANGED pvars
       [] OTHER            -> /\ bad' = bad \cup {"Unexplained"}
-                             /\ UNCHANGED <<limit, enqd, pend, pre, runc, active, fin, wi, wiSnap>>
+                             /\ UNCHANGED <<limit, enqd, pend, pre, runc, active, fin, nilj, wi, wiSnap>>
 
 TStep ==
     /\ l <= Len(Trace)
